@@ -380,7 +380,15 @@ inline int driverMain(int argc, char **argv, const char *driver,
     c.cases++;
     const uint64_t poisonBefore =
         vq::counts().poison.load(std::memory_order_relaxed);
+    const uint64_t bigBefore = vq::counts().bigint.load(std::memory_order_relaxed);
     fn(c);
+    const uint64_t bigAfter = vq::counts().bigint.load(std::memory_order_relaxed);
+    if (bigAfter != bigBefore)
+      c.violation("C19", std::string("integer-beyond-int/") + driver,
+                  "the scalar type was constructed " +
+                      std::to_string(bigAfter - bigBefore) +
+                      " time(s) from an integer value that does not fit an int; "
+                      "the documented requirement is static_cast<T>(int)");
     const uint64_t poisonAfter =
         vq::counts().poison.load(std::memory_order_relaxed);
     if (poisonAfter != poisonBefore)
